@@ -255,4 +255,22 @@ def witnessLines : List String := [
   "C19 ca 1002000"
 ]
 
+/-! ### what "compare SNI and Host once per connection" would do
+
+NOT the code (`Props.enforcement_is_per_request`, `enforcement_reads_only_sni_and_host_matches_source`,
+`conn_context_values_match_source`): a flag in the connection context set by the first request that
+passes the strict check and exempting later requests.  The SNI is constant for a connection, the
+Host is not: after one request for the connection's own name, the client-auth site is served on
+the same connection, although the connection's policy (catch-all) never asked for a certificate. -/
+theorem checked_once_per_connection_fails :
+    ∃ (ps : List Policy) (sites : List Bytes) (sni : Bytes) (hosts : List Bytes),
+      choose false ps ⟨sni, fun _ => false⟩ = .config 1 ∧ ps[1]?.map (·.clientAuth) = some false ∧
+      choose false ps ⟨e2eSecret, fun _ => false⟩ = .config 0 ∧ ps[0]?.map (·.clientAuth) = some true ∧
+      serveConnMemoFrom (effectiveStrict none ps) sites ⟨sni, false⟩ hosts = [.handler (some 1), .handler (some 0)] ∧
+      serveConn (effectiveStrict none ps) sites sni hosts = [.handler (some 1), .misdirected] :=
+  ⟨e2ePolicies, e2eSites, e2ePublic, [e2ePublic, e2eSecret], by decide, by decide, by decide, by decide, by decide, by decide⟩
+
+-- a first request is still checked by the memoised variant: single-request probes cannot tell the two apart
+example : serveConnMemoFrom true e2eSites ⟨e2ePublic, false⟩ [e2eSecret] = serveConn true e2eSites e2ePublic [e2eSecret] := by decide
+
 end CaddyModel.C19
